@@ -118,6 +118,26 @@ async def sk_delivery_into_freed_numbers_then_restart(hp, w, rnd, ctx):
     await w.observe()
 
 
+async def sk_rename_inbox_right_after_a_delivery(hp, w, rnd, ctx):
+    """The agent files mail and, before any session has synchronised, INBOX is
+    renamed: wherever the new messages end up, they are announced there with
+    exactly the agent's flags."""
+    a, b = w.session(), w.session()
+    for i in range(3):
+        await w.op_append(a, "INBOX", flags=[["\\Seen"], ["\\Flagged", "\\Seen"], []][i])
+    await w.op_select(a, "INBOX")
+    await w.op_select(b, "INBOX")
+    await w.observe()
+    w.deliver("INBOX", 2, unseen=[True, False])
+    await w.op_rename(a, "INBOX", "saved")
+    await w.rig.advance(25)
+    await w.op_noop(b)
+    await w.op_noop(a)
+    await w.observe()
+    w.check_disk("INBOX")
+    w.check_disk("saved")
+
+
 async def sk_delivery_while_an_expunge_is_running(hp, w, rnd, ctx):
     """The agent files mail while a session's EXPUNGE (then a CLOSE, then a
     MOVE) is in the middle of removing messages -- its client reads slowly, so
@@ -219,7 +239,7 @@ async def sk_delivery_while_a_command_is_executing(hp, w, rnd, ctx):
 class C13(HistProp):
     prop = PROP
     names = ["INBOX", "other"]
-    skeletons = [sk_number_reuse, sk_delivery_to_idle_unselected_inactive, sk_move_close_then_deliver, sk_delivery_while_a_command_is_executing, sk_delivery_into_freed_numbers_then_restart, sk_delivery_while_an_expunge_is_running]
+    skeletons = [sk_number_reuse, sk_delivery_to_idle_unselected_inactive, sk_move_close_then_deliver, sk_delivery_while_a_command_is_executing, sk_delivery_into_freed_numbers_then_restart, sk_delivery_while_an_expunge_is_running, sk_rename_inbox_right_after_a_delivery]
     weights = {"deliver": 16, "store": 8, "store_del": 9, "uid_store": 3, "expunge": 9, "uid_expunge": 3, "move": 4, "copy": 3, "append": 4, "noop": 9, "idle": 5, "advance": 4,
                "fetch_body": 3, "close": 3, "unselect": 3, "restart": 1, "check": 3, "deliver_stalled": 5, "rename_inbox": 1}
     opts = {"rename_targets": ["saved", "kept"]}
